@@ -1,0 +1,111 @@
+//go:build verif
+
+// Contracts for package doublylinkedlist (comment-only; read by /verif/engine, never compiled into the package).
+
+package doublylinkedlist
+
+//@ -- ghost state: the sequence of nodes of the list, each node's position and owner (none exists at run time)
+//@ ghost field List.nodes map like first
+//@ ghost field element.idx int
+//@ ghost field element.owner ref
+
+//@ pred Node(l, i) := l.nodes[i]
+//@ pred Inv(l) := l != nil && l.size >= 0
+//@     && (l.size == 0 ==> l.first == nil && l.last == nil)
+//@     && (l.size > 0 ==> l.first == l.nodes[0] && l.last == l.nodes[l.size - 1] && l.nodes[l.size - 1].next == nil && l.nodes[0].prev == nil)
+//@     && (forall i :: 0 <= i && i < l.size ==> l.nodes[i] != nil && l.nodes[i].idx == i && l.nodes[i].owner == l)
+//@     && (forall i :: 0 <= i && i < l.size - 1 ==> l.nodes[i].next == l.nodes[i+1] && l.nodes[i+1].prev == l.nodes[i])
+//@ -- abstract view: the list content
+//@ pred Seq(l) := mklseq(l.size, \i. l.nodes[i].value)
+//@ pred InRange(l, i) := 0 <= i && i < l.size
+
+//@ func New
+//@   modifies nothing
+//@   ensures [C03 C15 C17] fresh(result) && Inv(result) && Seq(result) == seq(values)
+
+//@ func List.Add
+//@   requires Inv(list)
+//@   modifies list.first, list.last, list.size, list.nodes
+//@   modifies each e like list.first where e.owner == list : e.next
+//@   at backedge 1: list.nodes[list.size - 1] := newElement
+//@   at backedge 1: newElement.idx := list.size - 1
+//@   at backedge 1: newElement.owner := list
+//@   ensures [C03 C09 C17] Inv(list) && Seq(list) == old(Seq(list)) ++ seq(values)
+//@   ensures [C09] prefix: forall i :: 0 <= i && i < old(list.size) ==> list.nodes[i] == old(list.nodes[i])
+//@   loop 1:
+//@     invariant Inv(list) && 0 - 1 <= rangeindex && rangeindex < len(values) && list.size == old(list.size) + rangeindex + 1
+//@     invariant forall i :: 0 <= i && i < old(list.size) ==> list.nodes[i] == old(list.nodes[i]) && list.nodes[i].value == old(list.nodes[i].value)
+//@     invariant forall k :: 0 <= k && k <= rangeindex ==> list.nodes[old(list.size) + k].value == values[k] && fresh(list.nodes[old(list.size) + k])
+//@     decreases len(values) - rangeindex
+
+//@ func List.Append
+//@   requires Inv(list)
+//@   modifies list.first, list.last, list.size, list.nodes
+//@   modifies each e like list.first where e.owner == list : e.next
+//@   ensures [C03 C17] Inv(list) && Seq(list) == old(Seq(list)) ++ seq(values)
+
+//@ func List.Get
+//@   requires Inv(list)
+//@   modifies nothing
+//@   ensures [C03 C17 C18] InRange(list, index) ==> result1 && result0 == Seq(list)[index]
+//@   ensures [C03 C17 C18] !InRange(list, index) ==> !result1 && result0 == zero(result0)
+//@   loop 1:
+//@     invariant index <= e && e <= list.size - 1 && element == list.nodes[e]
+//@     decreases e - index
+//@   loop 2:
+//@     invariant 0 <= e && e <= index && element == list.nodes[e]
+//@     decreases index - e
+
+//@ func List.Empty
+//@   requires Inv(list)
+//@   modifies nothing
+//@   ensures [C15 C17 C18] result == (len(Seq(list)) == 0)
+
+//@ func List.Size
+//@   requires Inv(list)
+//@   modifies nothing
+//@   ensures [C03 C15 C17 C18] result == len(Seq(list)) && result >= 0
+
+//@ func List.Clear
+//@   requires list != nil
+//@   modifies list.first, list.last, list.size
+//@   ensures [C03 C15 C17] Inv(list) && len(Seq(list)) == 0
+
+//@ func List.Values
+//@   requires Inv(list)
+//@   modifies nothing
+//@   ensures [C03 C15 C16 C17 C18] fresh(arr(result)) && seq(result) == Seq(list)
+//@   loop 1:
+//@     invariant 0 <= e && e <= list.size && (e < list.size ==> element == list.nodes[e]) && (e == list.size ==> element == nil)
+//@     invariant len(values) == list.size && fresh(arr(values))
+//@     invariant forall k :: 0 <= k && k < e ==> values[k] == Seq(list)[k]
+//@     decreases list.size - e
+
+//@ func List.IndexOf
+//@   requires Inv(list)
+//@   modifies nothing
+//@   ensures [C03 C17 C18] 0 - 1 <= result && result < len(Seq(list)) && (result >= 0 ==> Seq(list)[result] == value)
+//@   ensures [C03] forall k :: 0 <= k && k < len(Seq(list)) && (k < result || result < 0) ==> Seq(list)[k] != value
+//@   loop 1:
+//@     invariant 0 - 1 <= rangeindex && rangeindex < list.size && list.size > 0
+//@     invariant forall k :: 0 <= k && k <= rangeindex ==> Seq(list)[k] != value
+//@     decreases list.size - rangeindex
+
+//@ func List.Remove
+//@   requires Inv(list)
+//@   modifies list.first, list.last, list.size, list.nodes
+//@   modifies each e like list.first where e.owner == list : e.next, e.prev, e.idx
+//@   at exit: if old(InRange(list, index)) && old(list.size) > 1 then list.nodes := \i. ite(i < index, old(list.nodes[i]), old(list.nodes[i+1]))
+//@   at exit: if old(InRange(list, index)) && old(list.size) > 1 then all element.idx := \x like list.first => ite(x.owner == list && index < old(x.idx) && old(x.idx) < old(list.size) && old(list.nodes[x.idx]) == x, old(x.idx) - 1, old(x.idx))
+//@   ensures [C03 C09 C17] Inv(list)
+//@   ensures [C03 C09] removed: old(InRange(list, index)) ==> Seq(list) == old(Seq(list))[:index] ++ old(Seq(list))[index+1:]
+//@   ensures [C03 C09] noop: !old(InRange(list, index)) ==> Seq(list) == old(Seq(list)) && list.size == old(list.size)
+//@   loop 1:
+//@     invariant index <= e && e <= list.size - 1 && element == list.nodes[e]
+//@     decreases e - index
+//@   loop 2:
+//@     invariant 0 <= e && e <= index && element == list.nodes[e]
+//@     decreases index - e
+
+//@ func List.withinRange
+//@   inline
